@@ -33,6 +33,16 @@ def corpus():
     resp = q[:2] + b"\x85\x00" + q[4:6] + b"\x00\x01" + q[8:] + b"\xc0\x0c\x00\x01\x00\x01\x00\x00\x00\x10\x00\x04\x0a\x00\x00\x01"
     yield Script(CFG, [net.frame_udp(gens.PEER4, gens.SELF4, 53, 5353, q[:2] + b"\x84\x00" + q[4:]),
                        net.frame_udp(gens.PEER4, gens.SELF4, 53, 5353, resp)], "corpus:dns-response")
+    # the three byte strings on which the first monitor (Spec/C12.v: ok_C12) over-demanded (C12_spec_monitor_refuted):
+    # an RPC reply datagram that is also a STUN request with CHANGE-REQUEST; a version-1 portmapper call whose word at
+    # offset 8 is 1; a continuation segment with word 1 at offset 8 that completes a call. All are answered, legitimately.
+    w1 = bytes.fromhex("0001000800000001000000000000000000000004000300040000 0000".replace(" ", ""))
+    w2 = bytes.fromhex("deadbeef0000000000000001000186a00000000200000003") + bytes(16)
+    yield Script(CFG, [net.frame_udp(gens.PEER4, gens.SELF4, 40000, 3478, w1), net.frame_udp(gens.PEER4, gens.SELF4, 40001, 111, w2)]
+                 + gens.handshake(CFG.key, gens.PEER4, gens.SELF4, 40002, 111, [w2])
+                 + gens.handshake(CFG.key, gens.PEER4, gens.SELF4, 40003, 111,
+                                  [bytes.fromhex("80000028deadbeef0000000000000002000186a00000000200000003"),
+                                   bytes.fromhex("00000000000000000000000100000000")]), "corpus:monitor-overdemand")
 
 
 def reply_typed_frames(rng, tier):
@@ -77,6 +87,21 @@ def reply_typed_frames(rng, tier):
     s2 = bytearray(c01.SMB2_NEG); s2[20] |= 0x01
     fr.append(net.frame_udp(gens.PEER4, gens.SELF4, 445, 40000, bytes(s1)))
     fr.append(net.frame_udp(gens.PEER4, gens.SELF4, 445, 40000, bytes(s2)))
+    # ... every SMB1 flags byte with the reply bit, SMB2 flag words with it; negotiate and session setup; over TCP too
+    import props.c17 as c17
+    k = 0
+    for fl in (range(0x80, 0x100) if tier == "thorough" else list(range(0x80, 0x100, 8)) + [0x98, 0x81, 0xff, 0x88, 0x90]):
+        for cmd, body in ((0x72, c17.smb1_neg_body([c17.D_NTLM])), (0x73, c17.smb1_setup_body(b"\x60\x06blob12"))):
+            p1 = c17.nbt(c17.smb1_hdr(cmd, flags=fl) + body)
+            k += 1
+            if k % 2:
+                fr.append(net.frame_udp(gens.PEER4, gens.SELF4, 445, 40000 + k, p1))
+            else:
+                fr += gens.handshake(CFG.key, gens.PEER4, gens.SELF4, 41000 + k, 445, [p1])
+    for fl in (1, 3, 9, 0x11, 0x80000001, 0xffffffff):
+        for cmd, body in ((0, c17.smb2_neg_body([0x0202, 0x0311])), (1, c17.smb2_setup_body(b"\x60\x06blob12"))):
+            k += 1
+            fr += gens.handshake(CFG.key, gens.PEER6, gens.SELF6, 41000 + k, 445, [c17.nbt(c17.smb2_hdr(cmd, flags=fl) + body)])
     return fr
 
 
